@@ -104,6 +104,18 @@ def run(pid: str, tier: str) -> dict:
     ntr, length = (300, 14) if tier == "quick" else (4000, 30)
     rng = random.Random(seed * 7907 + 3)
     jobs = [(f"lt{seed}-{i}", rng.choice(["sx", "mx"]), rand_history(rng, rng.randint(3, length)), None) for i in range(ntr)]
+    # fixed histories (independent of the random stream): an element re-stepped with identical arguments after a
+    # neighbour changed without leaving a stale symbol behind (the free destination replaced by a congested one; a
+    # neighbour re-initialised and re-stepped) - the re-step must see the change
+    fixed = []
+    for P in ("P1", "P2"):
+        fixed.append([["net_step", "", P, "O0", ""], ["step", "L2", "", P, "O0"], ["add_later", "D1"], ["init", "D1", ""],
+                      ["step", "L2", "", P, "O0"], ["compile", None]])
+        fixed.append([["net_step", "", P, "O0", ""], ["step", "L1", "", P, "O0"], ["init", "L2", ""], ["step", "L2", "", P, "O0"],
+                      ["step", "L1", "", P, "O0"], ["step", "R1", "", P, "O0"], ["compile", None]])
+        fixed.append([["net_step", "", P, "O0", ""], ["step", "O1", "", P, "O0"], ["init", "L1", ""], ["step", "L1", "", P, "O0"],
+                      ["step", "O1", "", P, "O0"], ["step", "L2", "", P, "O0"], ["compile", None]])
+    jobs = [(f"ltfix{seed}-{i}-{k}", k, h, None) for i, h in enumerate(fixed) for k in ("sx", "mx")] + jobs
     ctx = mp.get_context("spawn")
     with ctx.Pool(min(NCPU, 12)) as pool:
         traces = pool.map(_record, jobs, chunksize=8)
